@@ -47,9 +47,6 @@ def goSpec (spe : UInt64) (c : Schedule) : Gen.GoFuns.Spec :=
     BELLATRIX_FORK_EPOCH := c.bellatrixEpoch, CAPELLA_FORK_EPOCH := c.capellaEpoch,
     DENEB_FORK_EPOCH := c.denebEpoch, ELECTRA_FORK_EPOCH := c.electraEpoch, FULU_FORK_EPOCH := c.fuluEpoch }
 
-instance : DecidableEq ByteArray := fun a b =>
-  if h : a.data = b.data then isTrue (by cases a; cases b; simp_all) else isFalse (by intro e; exact h (by rw [e]))
-
 def H := Sha256.hash
 
 /-- number of forks (phase0…electra, the ones with a block type) other than `f` that carry `f`'s version -/
@@ -100,12 +97,55 @@ def keysLine (t : List (String × String × Val)) : String :=
 def fstateStr (s : FState) : String :=
   s!"{s.ty.name},{hexU32 s.prev},{hexU32 s.cur},{s.epoch.toNat}"
 
-/-- specification of the fork bookkeeping of a chain started from a phase0 genesis at slot 0 -/
+/-- specification of the fork bookkeeping at `slot` of a chain whose genesis is in the fork active at epoch 0
+(fork record `(v, v, 0)`); for `ALTAIR_FORK_EPOCH ≠ 0` that is the phase0 genesis zrnt builds -/
 def specFState (c : Schedule) (spe : UInt64) (slot : UInt64) : String :=
   let e := slot.toNat / spe.toNat
   let f := forkAt c e
-  if f = .phase0 then s!"phase0,{hexU32 c.genesisVersion},{hexU32 c.genesisVersion},0"
+  let f0 := forkAt c 0
+  if f = f0 then s!"{f0.name},{hexU32 (c.versionOf f0)},{hexU32 (c.versionOf f0)},0"
   else s!"{f.name},{hexU32 (c.versionOf f.pred)},{hexU32 (c.versionOf f)},{c.epochOf f}"
+
+def chainLine (kind s : String) (targets : List String) : String :=
+  let bad := "bad-op"
+  -- `chain`: phase0 genesis as zrnt builds it; `chaing`: genesis upgraded at slot 0 into the fork of epoch 0
+  if kind != "chain" && kind != "chaing" then bad else
+  match parseSchedule s, targets.mapM parseU64 with
+  | some (spe, c), some ts =>
+    if ts.isEmpty || !decide c.Monotone then bad else
+    let f0 := if kind == "chaing" then forkAt c 0 else .phase0
+    if f0 = .electra || f0 = .fulu then bad else
+    let init : FState := { ty := f0, prev := c.versionOf f0, cur := c.versionOf f0, epoch := 0, slot := 0 }
+    -- walk the targets in order (they are increasing; a non-increasing target is the Go error)
+    let rec go (st : Res FState) (ts : List UInt64) (accM accS : List String) : List String × List String :=
+      match ts with
+      | [] => (accM.reverse, accS.reverse)
+      | t :: rest =>
+        match st with
+        | .ok s =>
+          if t.toNat ≤ s.slot.toNat then (("err" :: accM).reverse, ("err" :: accS).reverse) else
+          let st' := processSlots genUpgrade genSupported c spe (t.toNat - s.slot.toNat) s
+          match st' with
+          | .ok s' =>
+            -- beyond the specification's reach: fork at genesis (phase0 genesis is then not "a genesis in
+            -- the right fork"), Electra (upgrade unsupported by the repository), wrapped boundary products
+            let e := t.toNat / spe.toNat
+            let wrapped := Fork.all.any (fun f => c.epochOf f * spe.toNat ≥ 2^64 && (c.epochOf f * spe.toNat) % 2^64 ≤ t.toNat)
+            -- an unconstrained target repeats the model's answer (so that only Go = model is compared there)
+            let sp := if (kind == "chain" && c.altairEpoch = 0) ∨ forkAt c e = .electra ∨ forkAt c e = .fulu ∨ wrapped then fstateStr s'
+                      else specFState c spe t
+            go st' rest (fstateStr s' :: accM) (sp :: accS)
+          | .panic => (("panic" :: accM).reverse, ("panic" :: accS).reverse)
+          | _ =>
+            -- the repository does not support the Electra upgrade (documented): an error there is not judged
+            let e := t.toNat / spe.toNat
+            let sp := if forkAt c e = .electra ∨ forkAt c e = .fulu then "err" else specFState c spe t
+            (("err" :: accM).reverse, (sp :: accS).reverse)
+        | _ => (accM.reverse, accS.reverse)
+    if spe = 0 then "panic | any" else
+    let (m, sp) := go (.ok init) ts [] []
+    "ok " ++ " ".intercalate m ++ " | ok " ++ " ".intercalate sp
+  | _, _ => bad
 
 def c14Line (line : String) : String :=
   let toks := tokens line
@@ -155,41 +195,8 @@ def c14Line (line : String) : String :=
         | _ => "any"
       (match al with | some f => "ok " ++ f.name | none => "err") ++ " | " ++ sp
     | _, _, _ => bad
-  | "chain" :: s :: targets =>
-    match parseSchedule s, targets.mapM parseU64 with
-    | some (spe, c), some ts =>
-      if ts.isEmpty || !decide c.Monotone then bad else
-      let init : FState := { ty := .phase0, prev := c.genesisVersion, cur := c.genesisVersion, epoch := 0, slot := 0 }
-      -- walk the targets in order (they are increasing; a non-increasing target is the Go error)
-      let rec go (st : Res FState) (ts : List UInt64) (accM accS : List String) : List String × List String :=
-        match ts with
-        | [] => (accM.reverse, accS.reverse)
-        | t :: rest =>
-          match st with
-          | .ok s =>
-            if t.toNat ≤ s.slot.toNat then (("err" :: accM).reverse, ("err" :: accS).reverse) else
-            let st' := processSlots genUpgrade genSupported c spe (t.toNat - s.slot.toNat) s
-            match st' with
-            | .ok s' =>
-              -- beyond the specification's reach: fork at genesis (phase0 genesis is then not "a genesis in
-              -- the right fork"), Electra (upgrade unsupported by the repository), wrapped boundary products
-              let e := t.toNat / spe.toNat
-              let wrapped := Fork.all.any (fun f => c.epochOf f * spe.toNat ≥ 2^64 && (c.epochOf f * spe.toNat) % 2^64 ≤ t.toNat)
-              -- an unconstrained target repeats the model's answer (so that only Go = model is compared there)
-              let sp := if c.altairEpoch = 0 ∨ forkAt c e = .electra ∨ forkAt c e = .fulu ∨ wrapped then fstateStr s'
-                        else specFState c spe t
-              go st' rest (fstateStr s' :: accM) (sp :: accS)
-            | .panic => (("panic" :: accM).reverse, ("panic" :: accS).reverse)
-            | _ =>
-              -- the repository does not support the Electra upgrade (documented): an error there is not judged
-              let e := t.toNat / spe.toNat
-              let sp := if forkAt c e = .electra ∨ forkAt c e = .fulu then "err" else specFState c spe t
-              (("err" :: accM).reverse, (sp :: accS).reverse)
-          | _ => (accM.reverse, accS.reverse)
-      if spe = 0 then "panic | any" else
-      let (m, sp) := go (.ok init) ts [] []
-      "ok " ++ " ".intercalate m ++ " | ok " ++ " ".intercalate sp
-    | _, _ => bad
+  | "chain" :: s :: targets => chainLine "chain" s targets
+  | "chaing" :: s :: targets => chainLine "chaing" s targets
   | ["env", fork, _seed] =>
     match Fork.ofName? fork with
     | some f =>
@@ -210,11 +217,9 @@ def c14Line (line : String) : String :=
         let signedMsg := signingRoot H root (computeDomain H DOMAIN_BEACON_PROPOSER (c.versionOf fv) gvrSign)
         let envDigest := forkDigest H (c.versionOf fdg) dGvr
         let e := slot.toNat / spe.toNat
-        let sigOk := kind == "good" && signer == pub
-        -- model: version from the regenerated ForkVersion
-        let verdict (v : UInt32) : Bool :=
-          penv == prop && envDigest == forkDigest H v gvr &&
-          signedMsg == signingRoot H root (computeDomain H DOMAIN_BEACON_PROPOSER v gvr) && sigOk
+        -- ideal BLS: the signature verifies for exactly the message it was made over, with the signer's key
+        let bls (msg : ByteArray) : Bool := kind == "good" && signer == pub && decide (msg = signedMsg)
+        let verdict (v : UInt32) : Bool := verifyEnvelopeVersioned H bls v gvr penv prop envDigest root
         let m := match Gen.GoFuns.ForkVersion (goSpec spe c) slot with
           | .ok v => "ok " ++ boolStr (verdict v)
           | r => r.render hexU32
